@@ -49,7 +49,10 @@ Theorem C21_operators :
   op_correct (op_zip Tick Tick) zip_tick_spec /\
   op_correct (op_zip Static Static) zip_static_spec /\
   op_correct op_zip_longest (fun _ cur => [vzip_longest (port 0 cur) (port 1 cur)]) /\
-  (forall p i f, op_correct (op_scan p i f) (scan_spec p i f)).
+  (forall p i f, op_correct (op_scan p i f) (scan_spec p i f)) /\
+  (forall p, op_correct (op_cross_singleton p) (cross_singleton_spec p)) /\
+  (forall p i f, op_correct (op_fold_no_replay p i f) (fold_no_replay_spec p i f)) /\
+  (forall p f, op_correct (op_reduce_no_replay p f) (reduce_no_replay_spec p f)).
 Proof. exact named_operators_correct. Qed.
 Print Assumptions C21_operators.
 
